@@ -20,6 +20,7 @@
 //!   1: `Patch` — oracle only.
 //!   2: `Identity` — the concurrent-sibling dependence of `Identity::op`
 //!      (class `identity-op-outcome-depends-on-rejected-sibling`).
+//!   3: `Thread` (stand-alone) — oracle only.
 #[path = "../../c05/src/cobdag.rs"]
 mod cobdag;
 use cobdag::*;
@@ -373,7 +374,7 @@ fn istore_term(wr: &Written, w: &World, ops: &[OpSpec], ranks: &Ranks) -> String
 
 fn stream_issue(run: &mut Run, w: &World) {
     use radicle::cob::issue::TYPENAME;
-    let count = run.args.count(220, 2200);
+    let count = run.args.count(220, 1500);
     for i in 0..count {
         let id = format!("0:{i}");
         if !run.args.wants(&id) {
@@ -581,6 +582,105 @@ fn stream_patch(run: &mut Run, w: &World) {
     }
 }
 
+
+// ---------------------------------------------------------------- stream 3: threads
+
+/// The stand-alone `Thread` type: every successful action pushes the op id on
+/// the timeline, so (debug assertion) an op holds at most one action that
+/// succeeds; the rejected ops are [valid action; failing action].
+fn stream_thread(run: &mut Run, w: &World) {
+    use radicle::cob::thread::{Thread, TYPENAME};
+    let count = run.args.count(40, 300);
+    for i in 0..count {
+        let id = format!("3:{i}");
+        if !run.args.wants(&id) {
+            continue;
+        }
+        let mut rng = Rng::for_case(run.args.seed, 3, i);
+        let n = rng.range(3, 9) as usize;
+        let mut oids: Vec<Oid> = vec![];
+        let mut specs: Vec<(Vec<usize>, bool, bool, Vec<Value>)> = vec![];
+        for k in 0..n {
+            let parents: Vec<usize> = if k == 0 { vec![] } else { vec![if rng.bool() { k - 1 } else { rng.below(k as u64) as usize }] };
+            let mut acts: Vec<Value> = vec![];
+            let mut must_fail = false;
+            if k == 0 {
+                acts.push(json!({"type": "comment", "body": "root"}));
+            } else {
+                let root = oids[0].to_string();
+                acts.push(match rng.below(3) {
+                    0 => json!({"type": "comment", "body": format!("c{k}"), "replyTo": root}),
+                    1 => json!({"type": "react", "to": root, "reaction": EMOJI[rng.below(3) as usize], "active": true}),
+                    _ => json!({"type": "edit", "id": root, "body": format!("e{k}")}),
+                });
+                if rng.chance(1, 2) {
+                    must_fail = true;
+                    // fails before it touches the timeline
+                    acts.push(match rng.below(4) {
+                        0 => json!({"type": "comment", "body": "", "replyTo": root}),
+                        1 => json!({"type": "comment", "body": "x", "replyTo": missing_oid(1).to_string()}),
+                        2 => json!({"type": "redact", "id": missing_oid(2).to_string()}),
+                        _ => json!({"type": "react", "to": missing_oid(3).to_string(), "reaction": EMOJI[0], "active": true}),
+                    });
+                }
+            }
+            let tips: Vec<Oid> = parents.iter().map(|p| oids[*p]).collect();
+            let bad = k > 0 && rng.chance(1, 12);
+            let e = w.store_change(&TYPENAME, &tips, rng.below(N_ACTORS as u64) as usize, 1000 + k as u64, acts.iter().map(|a| serde_json::to_vec(a).unwrap()).collect(), bad, Some(w.resource), &format!("{}:3:{i}:{k}", run.args.seed));
+            oids.push(e.id);
+            specs.push((parents, bad, must_fail, acts));
+        }
+        let input = json!({"ops": specs.iter().map(|(p, b, m, a)| json!({"parents": p, "bad_sig": b, "must_fail": m, "actions": a})).collect::<Vec<_>>()});
+        let object = ObjectId::from(oids[0]);
+        let mut has_child = vec![false; n];
+        for (p, _, _, _) in &specs {
+            for x in p {
+                has_child[*x] = true;
+            }
+        }
+        let tips: Vec<Oid> = (0..n).filter(|k| !has_child[*k]).map(|k| oids[k]).collect();
+        let repo = w.repo();
+        let eval = |tips: &[Oid]| {
+            w.set_refs(&TYPENAME, &object, &layout(tips));
+            catch(std::panic::AssertUnwindSafe(|| cob::get::<Thread, _>(repo, &TYPENAME, &object)))
+        };
+        run.eval();
+        match eval(&tips) {
+            Err(p) => run.fail(&id, "cob-get-panic", format!("get::<Thread> panicked: {p}"), input.clone()),
+            Ok(Ok(Some(full))) => {
+                let (nodes, htips) = history_dump(&full.history);
+                let fjson = serde_json::to_string(&full.object).unwrap();
+                run.tally("thread:evaluated");
+                if nodes.len() < n {
+                    run.tally("thread:with-rejected-ops");
+                }
+                for (k, (_, bad, must_fail, _)) in specs.iter().enumerate() {
+                    if *bad && nodes.contains_key(&oids[k]) {
+                        run.fail(&id, "cob-invalid-signature-accepted", format!("thread op {k} has an invalid signature but is part of the history"), input.clone());
+                    }
+                    if *must_fail && nodes.contains_key(&oids[k]) {
+                        run.fail(&id, "cob-failing-op-accepted", format!("thread op {k} contains an action that must be rejected but is part of the history"), input.clone());
+                    }
+                }
+                let sub_tips: Vec<Oid> = htips.iter().cloned().collect();
+                run.eval();
+                match eval(&sub_tips) {
+                    Ok(Ok(Some(sub))) => {
+                        let (snodes, stips) = history_dump(&sub.history);
+                        let sjson = serde_json::to_string(&sub.object).unwrap();
+                        if sjson != fjson || snodes != nodes || stips != htips {
+                            run.fail(&id, "cob-rejected-change-left-trace", format!("thread: evaluating with the rejected operations differs from evaluating without them:\n with:    {fjson}\n without: {sjson}"), input.clone());
+                        }
+                    }
+                    _ => run.fail(&id, "cob-rejected-change-left-trace", "thread: the kept history does not evaluate".into(), input.clone()),
+                }
+            }
+            Ok(other) => run.fail(&id, "cob-get-unexpected-error", format!("thread: {:?}", other.map(|o| o.is_some()).map_err(|e| e.to_string())), input.clone()),
+        }
+        w.set_refs(&TYPENAME, &object, &[]);
+    }
+}
+
 // ---------------------------------------------------------------- stream 2: identity siblings
 
 /// `Identity::op` ignores an `UnexpectedState` error when the operation has
@@ -676,6 +776,7 @@ fn main() {
     stream_issue(&mut run, &w);
     stream_patch(&mut run, &w);
     stream_identity(&mut run, &w);
+    stream_thread(&mut run, &w);
     run.note("metamorphic oracle: cob::get on the full history vs cob::get with the refs moved to the tips of the history the first evaluation kept".into());
     run.finish();
 }
